@@ -2,6 +2,8 @@
 # tools/soak_seeds.sh [seeds...]: run every quick check on the UNCHANGED tree with other seeds
 # (false-alarm hunt).  Inside a vp run snapshot or in /verif.
 cd "$(dirname "$0")/.."
+# inside `vp run --with-repo` use the private snapshot of /repo (so that seed trials against /repo cannot interfere)
+[ -n "$VP_RUN_REPO" ] && export VERIF_REPO=$VP_RUN_REPO
 ./setup.sh >/dev/null 2>&1
 for sd in ${@:-1 2 3}; do
   for p in C01 C02 C03 C04 C05 C06 C07 C08 C09 C10 C11 C12 C13 C14 C15 C16 C17 C18 C19; do
